@@ -20,13 +20,13 @@ ASSUMPTIONS = ["absolute tolerance 1e-6 (scaled by max(1,|r|) for SE(3) blocks t
                "reference derivative: 8th-order central differences with step 1e-5 in 50-digit arithmetic on the mpmath models of vlib/mpref.py (truncation error < 1e-30)",
                "Log_SO3_A is the partial derivative of the formula extended to R^{3x3} (trace and skew part); the model differentiates the same extension",
                "|psi| <= pi - 1e-3 for the logarithm derivatives (Log is not differentiable at half turns)"]
-REQUIRED_MONITORS = ["Exp_SO3_psi", "T_SO3_psi", "T_SO3_dot", "T_SO3_inv_psi", "Log_SO3_A", "Exp_SE3_h", "Log_SE3_H", "T_SO3_quat_P", "T_SO3_inv_quat_P", "fd_tie"]
+REQUIRED_MONITORS = ["Exp_SO3_psi", "T_SO3_psi", "T_SO3_dot", "T_SO3_inv_psi", "Log_SO3_A", "Exp_SE3_h", "Log_SE3_H", "T_SO3_quat_P", "T_SO3_inv_quat_P", "fd_tie", "purity"]
 META = {
     "level_text": "Exploration: every SO(3)/SE(3) derivative routine is evaluated on seeded points (log-uniform angles down to 1e-9 and exact zero) and compared with the derivative of an independent 50-digit model of the map; held on the points generated.",
     "level_note": "absolute tolerance 1e-6; reference = mpmath model differentiated by high-order differences in 50-digit arithmetic; finite-difference tie between model and real map only for |psi| >= 1e-3.",
     "technique": "runtime return-value monitors with mpmath reference-model derivative",
 }
-KINDS = ["Exp_SO3_psi", "T_SO3_psi", "T_SO3_dot", "T_SO3_inv_psi", "Log_SO3_A", "Exp_SE3_h", "Log_SE3_H", "quatT"]
+KINDS = ["Exp_SO3_psi", "T_SO3_psi", "T_SO3_dot", "T_SO3_inv_psi", "Log_SO3_A", "Exp_SE3_h", "Log_SE3_H", "quatT", "purity"]
 TOL = 1e-6
 
 
@@ -94,6 +94,30 @@ def run_case(spec, ctx):
     kind = spec["kind"]
     first = None
     nontrivial = False
+    if kind == "purity":
+        from vlib.oracles import purity_check
+        thunks = []
+        for b in range(spec["batch"]):
+            psi, cls = _psi(rng)
+            psi_dot = rng.normal(size=3)
+            r = rng.normal(size=3)
+            h = np.concatenate([r, psi])
+            A = np.array(mpref.tolist(mpref.exp_so3(psi.tolist())), dtype=float)
+            H = np.eye(4); H[:3, :3] = A; H[:3, 3] = r
+            P = rng.normal(size=4)
+            Pu = P / np.linalg.norm(P)
+            first = first or psi.tolist()
+            for name, args in (("Exp_SO3_psi", (psi,)), ("T_SO3_psi", (psi,)), ("T_SO3_inv_psi", (psi,)), ("T_SO3_dot", (psi, psi_dot)),
+                               ("Log_SO3_A", (A,)), ("Exp_SE3_h", (h,)), ("Log_SE3_H", (H,))):
+                thunks.append((name, {"function": name, "arguments": list(args)}, (lambda f=getattr(R, name), a=args: f(*[x.copy() for x in a]))))
+            for name in ("T_SO3_quat_P", "T_SO3_inv_quat_P"):
+                for q_, nz in ((P, True), (Pu, False), (Pu, True)):
+                    thunks.append((name, {"function": name, "P": q_, "normalize": nz}, (lambda f=getattr(R, name), a=q_, z=nz: f(a.copy(), normalize=z))))
+        purity_check(ctx, rng, thunks, mon="purity")
+        ctx.cls("kind:purity")
+        ctx.sig([kind, first], nontrivial=True)
+        ctx.sample({"kind": kind, "calls": len(thunks)})
+        return
     for b in range(spec["batch"]):
         psi, cls = _psi(rng)
         a = float(np.linalg.norm(psi))
